@@ -321,3 +321,14 @@ Section LexPadCons.
     lexpad d c (x :: a) [] = thenc (c x d) (lexpad d c a []).
   Proof. intros. unfold lexpad. simpl. rewrite Nat.max_0_r. destruct (c x d); reflexivity. Qed.
 End LexPadCons.
+
+(* no panic when the element comparison does not panic on the elements present *)
+Lemma lexnO_no_panic_on {A} (d : A) (co : A -> A -> outcome comparison) (good : A -> bool) :
+  good d = true -> (forall x y, good x = true -> good y = true -> co x y <> Panic) ->
+  forall n l1 l2, forallb good l1 = true -> forallb good l2 = true -> lexnO d co n l1 l2 <> Panic.
+Proof.
+  intros Gd NP. induction n; intros l1 l2 G1 G2; simpl; [discriminate|].
+  pose proof (NP _ _ (good_hd d good Gd l1 G1) (good_hd d good Gd l2 G2)) as H.
+  destruct (co (hd d l1) (hd d l2)) as [[]| |]; try discriminate; [|contradiction].
+  apply IHn; apply good_tl; assumption.
+Qed.
